@@ -73,7 +73,10 @@ def judge_C03(mm):
     allow_all = runner.hx('*') in origins
     cred = cfg[1] == '1'
     first_origin = (sc['req'].get(runner.H_ORIGIN) or [None])[0]
-    allowed = len(bits) > 1 and bits[1] == '1'
+    # 'allowed' is the model's own decision (parse + tree), which C01 identifies with the pattern denotations
+    mparts = runner.split_resp(mm['model'])
+    mbits = mparts[2] if len(mparts) > 2 else bits
+    allowed = len(mbits) > 1 and mbits[1] == '1'
     origin_ok = allow_all or (first_origin is not None and allowed)
     pf = runner.is_preflight(sc)
     H = r['hdrs']
